@@ -85,6 +85,7 @@ class Clause:
     weight_by_evals: bool = False  # each of the n sub-evaluations of a case is a distinct non-trivial item (fault enumeration)
     tiers: tuple = ("quick", "thorough")  # tiers in which the clause runs
     fuzz: Optional[Dict[str, Any]] = None  # kind == "fuzz": {"prop": "C10", "runs": {"thorough": N}, "seeded": k}
+    shrink_cap: Optional[int] = None  # upper bound on shrink evaluations for expensive oracles (child processes); None = the tier's default
 
     def run_check(self, case) -> List[Dev]:
         """Run the oracle on one case; library exceptions that escape become deviations.
